@@ -3,7 +3,6 @@
 package composite
 
 import (
-	"fmt"
 	"time"
 
 	"github.com/go-logr/logr"
@@ -11,22 +10,12 @@ import (
 
 	"metacontroller/pkg/apis/metacontroller/v1alpha1"
 	"metacontroller/pkg/controller/common"
+	"metacontroller/pkg/internal/verif/kit"
 	"metacontroller/pkg/internal/verif/mc"
 	"metacontroller/pkg/internal/verif/sim"
 	"metacontroller/pkg/internal/verif/world"
 )
 
-// Shared scenario vocabulary (DESIGN §3).
-var (
-	kThing   = &sim.Kind{Group: "ex.io", Version: "v1", Resource: "things", Kind: "Thing", Namespaced: true, StatusSub: true}
-	kThingNS = &sim.Kind{Group: "ex.io", Version: "v1", Resource: "nothings", Kind: "NoThing", Namespaced: true, StatusSub: false}
-	kCThing  = &sim.Kind{Group: "ex.io", Version: "v1", Resource: "cthings", Kind: "CThing", Namespaced: false, StatusSub: true}
-	kLeaf    = &sim.Kind{Group: "", Version: "v1", Resource: "leafs", Kind: "Leaf", Namespaced: true}
-	kWidget  = &sim.Kind{Group: "apps.ex", Version: "v1", Resource: "widgets", Kind: "Widget", Namespaced: true, StatusSub: true}
-	kCWidget = &sim.Kind{Group: "apps.ex", Version: "v1", Resource: "cwidgets", Kind: "CWidget", Namespaced: false}
-	kOther   = &sim.Kind{Group: "", Version: "v1", Resource: "others", Kind: "Other", Namespaced: true}
-	allKinds = []*sim.Kind{kThing, kThingNS, kCThing, kLeaf, kWidget, kCWidget, kOther}
-)
 
 type cworld struct {
 	*world.Base
@@ -118,7 +107,7 @@ func (o ccOpt) build() *v1alpha1.CompositeController {
 // newCWorld builds the real parentController on a fresh base; start installs the event handlers through
 // the real Start() (no workers: the harness is the worker).
 func newCWorld(o ccOpt, start bool) *cworld {
-	b := world.NewBase(5*time.Minute, allKinds...)
+	b := world.NewBase(5*time.Minute, kit.Kinds...)
 	w, err := attachComposite(b, o, start)
 	if err != nil {
 		panic(err)
@@ -147,7 +136,7 @@ func attachComposite(b *world.Base, o ccOpt, start bool) (*cworld, error) {
 	return w, nil
 }
 
-// rebuild models a process restart: fresh controller, caches refilled from the store, memos dropped.
+// syncKey runs the real sync under recover.
 func (w *cworld) syncKey(key string) (err error, panicked interface{}, stack string) {
 	panicked, stack = mc.Recover(func() { err = w.PC.sync(key) })
 	return
@@ -160,98 +149,3 @@ func parentKey(ns, name string) string {
 	return ns + "/" + name
 }
 
-// Object builders.
-func obj(k *sim.Kind, ns, name string) map[string]interface{} {
-	md := map[string]interface{}{"name": name}
-	if k.Namespaced {
-		md["namespace"] = ns
-	}
-	return map[string]interface{}{"apiVersion": k.APIVersion(), "kind": k.Kind, "metadata": md}
-}
-
-func withLabels(o map[string]interface{}, kv ...string) map[string]interface{} {
-	md := o["metadata"].(map[string]interface{})
-	l, _ := md["labels"].(map[string]interface{})
-	if l == nil {
-		l = map[string]interface{}{}
-		md["labels"] = l
-	}
-	for i := 0; i+1 < len(kv); i += 2 {
-		l[kv[i]] = kv[i+1]
-	}
-	return o
-}
-
-func withAnn(o map[string]interface{}, kv ...string) map[string]interface{} {
-	md := o["metadata"].(map[string]interface{})
-	l, _ := md["annotations"].(map[string]interface{})
-	if l == nil {
-		l = map[string]interface{}{}
-		md["annotations"] = l
-	}
-	for i := 0; i+1 < len(kv); i += 2 {
-		l[kv[i]] = kv[i+1]
-	}
-	return o
-}
-
-func withField(o map[string]interface{}, v interface{}, path ...string) map[string]interface{} {
-	m := o
-	for _, p := range path[:len(path)-1] {
-		n, _ := m[p].(map[string]interface{})
-		if n == nil {
-			n = map[string]interface{}{}
-			m[p] = n
-		}
-		m = n
-	}
-	m[path[len(path)-1]] = v
-	return o
-}
-
-func ownerRef(k *sim.Kind, name, uid string, controller bool) map[string]interface{} {
-	r := map[string]interface{}{"apiVersion": k.APIVersion(), "kind": k.Kind, "name": name, "uid": uid}
-	if controller {
-		r["controller"] = true
-		r["blockOwnerDeletion"] = true
-	}
-	return r
-}
-
-func withOwners(o map[string]interface{}, refs ...map[string]interface{}) map[string]interface{} {
-	md := o["metadata"].(map[string]interface{})
-	var l []interface{}
-	for _, r := range refs {
-		l = append(l, r)
-	}
-	md["ownerReferences"] = l
-	return o
-}
-
-func nstr(o map[string]interface{}, path ...string) string {
-	var cur interface{} = o
-	for _, p := range path {
-		m, ok := cur.(map[string]interface{})
-		if !ok {
-			return ""
-		}
-		cur = m[p]
-	}
-	s, _ := cur.(string)
-	return s
-}
-
-func controllerUID(o map[string]interface{}) string {
-	md, _ := o["metadata"].(map[string]interface{})
-	refs, _ := md["ownerReferences"].([]interface{})
-	for _, r := range refs {
-		rm, _ := r.(map[string]interface{})
-		if c, _ := rm["controller"].(bool); c {
-			u, _ := rm["uid"].(string)
-			return u
-		}
-	}
-	return ""
-}
-
-var _ = fmt.Sprintf
